@@ -1,6 +1,7 @@
 import OptunaVerif.Lemmas.Conc
 import OptunaVerif.Props.C01
 import OptunaVerif.Generated.LockTable
+import OptunaVerif.Props.C06
 /-!
 # C03 — concurrent use of one study is linearizable (partial: see DESIGN.md §3 C03)
 
@@ -105,6 +106,60 @@ theorem concurrent_numbers_dense (progs : List (List (Call Spec L Out))) (sched 
     C01.Numbered (exec (initSys s0 progs) sched).shared := by
   obtain ⟨rem, hseq, _⟩ := completed_run_is_sequential s0 progs sched hdone
   exact seqRun_numbered progs _ s0 _ rem himpl hn hseq
+
+/-! ## the journal: the log order is the linearization order -/
+
+namespace JournalLin
+open OptunaVerif.Journal
+
+/-- replaying records issued by other workers never raises here -/
+theorem applyLogs_foreign (w : String) (st : JState) (post : List Rec)
+    (h : ∀ x ∈ post, (x.worker == w) = false) : applyLogs w st post = (applyAll w st post, none) := by
+  induction post generalizing st with
+  | nil => rfl
+  | cons r rs ih =>
+    have he := (apply_spec w { st with cursor := st.cursor + 1 } r).2
+    rw [h r (by simp)] at he
+    simp only [Bool.false_eq_true, if_false] at he
+    simp only [applyLogs]
+    split
+    · rename_i st' e heq
+      rw [heq] at he; simp at he
+    · rename_i st' heq
+      have : (apply w { st with cursor := st.cursor + 1 } r).1 = st' := by rw [heq]
+      rw [ih st' (fun x hx => h x (by simp [hx]))]
+      show (applyAll w st' rs, none) = (applyAll w (apply w { st with cursor := st.cursor + 1 } r).1 rs, none)
+      rw [this]
+
+/-- **journal_log_linearizes**: a `JournalStorage` call appends one record `r` (atomically: C07) and
+then syncs; whatever other workers appended between the append and the read (`post`), the call's
+outcome — the error raised, the id returned by `create_new_trial`, the answer of a claim — is the
+outcome of applying `r` alone to the state of the log prefix before it, and the replica ends at the
+replay of the whole prefix read.  So every call takes effect at the position of its own record: the
+log order is a linearization, and it respects real time because the record is appended inside the
+call's invoke/return interval. -/
+theorem journal_log_linearizes (w : String) (st : JState) (r : Rec) (post : List Rec)
+    (hpost : ∀ x ∈ post, (x.worker == w) = false) :
+    (applyLogs w st (r :: post)).2 = (apply w { st with cursor := st.cursor + 1 } r).2 ∧
+    ((apply w { st with cursor := st.cursor + 1 } r).2 = none →
+      (applyLogs w st (r :: post)).1.owned.get? w = (apply w { st with cursor := st.cursor + 1 } r).1.owned.get? w ∧
+      (applyLogs w st (r :: post)).1.lastCreated = (apply w { st with cursor := st.cursor + 1 } r).1.lastCreated ∧
+      (applyLogs w st (r :: post)).1.spec = C06.pubReplay (apply w { st with cursor := st.cursor + 1 } r).1.spec post) := by
+  simp only [applyLogs]
+  split
+  · rename_i st' e heq
+    refine ⟨by rw [heq], ?_⟩
+    intro h; rw [heq] at h; simp at h
+  · rename_i st' heq
+    have hst : (apply w { st with cursor := st.cursor + 1 } r).1 = st' := by rw [heq]
+    rw [applyLogs_foreign w st' post hpost]
+    refine ⟨by rw [heq], ?_⟩
+    intro _
+    have hl := applyAll_foreign_local w st' post hpost
+    rw [hst]
+    exact ⟨hl.1, hl.2, (C06.applyAll_pub w st' post).1⟩
+
+end JournalLin
 
 /-! ## the hypothesis on the code, from the generated table -/
 open Generated.LockTable in
